@@ -2,6 +2,7 @@
 import itertools
 
 from common import enc_str, Reader
+import c18_css
 
 MARKUP_ALPHABET = list('aA1$#.*>+^()[]{}="\'/\\-@:! ') + ['\n', 'é', '٣', ' ', '%', '²']
 OPS = {'child': 0, 'sibling': 1, 'climb': 2, 'class': 3, 'id': 4, 'close': 5, 'equal': 6}
@@ -170,10 +171,13 @@ def run(ctx):
                         ctx.broken.append({'kind': 'correspondence', 'file': 'markup-tokenizer', 'input': s,
                                            'impl': repr(r)[:300], 'model': repr(m)[:300]})
         ctx.cov['correspondence']['markup_tokenizer'] = {'cases': len(cases), 'disagreements': dis}
+    c18_css.run_css(ctx)
 
 
 def replay(ctx, obj):
     rp = obj.get('replay', {})
+    if rp.get('component') == 'css':
+        return c18_css.replay_css(ctx, obj)
     s = rp.get('input')
     if s is None:
         print('replay names a broken obligation, no input: %s' % rp)
